@@ -74,8 +74,9 @@ def heap_step(ctx, keep=False):
         if not res['failed']:
             res['failed'] = ['HeapFacts.v'] if rc != 0 else [n for n in thms if not closed.get(n)] or ['HeapFacts.v']
         bad = [p for p in facts['programs'] + facts['writers'] if ('gen_%s_safe' % p['name']) in res['failed'] or ('gen_%s_ok' % p['name']) in res['failed']]
+        tail = '\n'.join(l for l in out.split('\n') if l.strip() and not l.startswith('Closed under') and not re.match(r'\s*(= (true|false)|: bool)\s*$', l))
         res['detail'] = ('obligations that evaluate to false: %s; %s; coqc rc=%d: %s' % (
-            ', '.join(res['failed']), '; '.join('%s <- %s' % (p['name'], p.get('query') or p.get('class')) for p in bad), rc, out.strip()[-500:]))
+            ', '.join(res['failed']), '; '.join('%s <- %s' % (p['name'], p.get('query') or p.get('class')) for p in bad), rc, tail.strip()[-500:]))
         return res
     res['ok'] = True
     if not keep:
@@ -102,6 +103,14 @@ def heap_cases(ctx, ntables):
         for q in HEAP_QUERIES:
             for w in ('mutating', 'csv', 'table'):
                 out.append({'mode': 'heap', 'q': q, 'qjs': q, 'A': A, 'B': B if ' join ' in q else None, 'writer': w, 'tags': ['heap', w]})
+        # list-valued cells: a row copy is shallow, so a writer that rewrites a cell OBJECT in place reaches the source row
+        An = [list(row) for row in A]
+        An[r.randrange(n)][2] = ['n', None, 3, ['m', None]]
+        Bn = [list(row) for row in B]
+        Bn[0][1] = [None, 'w']
+        for q in HEAP_QUERIES:
+            for w in ('mutating', 'csv'):
+                out.append({'mode': 'heap', 'q': q, 'qjs': q, 'A': An, 'B': Bn if ' join ' in q else None, 'writer': w, 'tags': ['heap', w, 'nested']})
     return out
 
 
@@ -112,7 +121,7 @@ def run_heap_cases(ctx, cases):
         return isinstance(g, dict) and g.get('sources_ok') is e['sources_ok'] and g.get('alias') is e['alias']
     for lang, runner in (('py', lib.run_impl_py), ('js', lib.run_impl_js)):
         lc = [dict(c, lang=lang) for c in cases]
-        got = runner('c06h', lc)
+        got = runner('c06h', lc, timeout=150 if ctx.tier == 'quick' else 1200)
         ctx.compare(lc, exp, got, HEAP_THEOREM, rel=rel,
                     describe=lambda c, e, g: 'rbql-%s query %r with a %s writer modified or aliased its sources: A=%s B=%s -> %s' % (
                         c['lang'], c['q'], c['writer'], json.dumps(c['A']), json.dumps(c['B']), json.dumps(g)[:200]),
@@ -173,21 +182,9 @@ def other_cases(ctx, n):
 
 
 def run(ctx):
-    # translation + compilation of the generated obligations runs beside the correspondence run (it only spawns processes)
-    box = {}
-
-    def bg():
-        try:
-            box['heap'] = heap_step(ctx)
-        except Exception as e:                               # noqa: BLE001
-            box['heap'] = {'ok': False, 'failed': ['heap_step'], 'detail': 'heap step raised %r' % e, 'dir': '', 'theorems': [], 'facts': None, 'stage': 'harness'}
-    th = threading.Thread(target=bg)
-    th.start()
-    nviol0 = len(ctx.violations)
-    hc = heap_cases(ctx, 3 if ctx.tier == 'quick' else 40)
-    run_heap_cases(ctx, hc)
+    heap_clause(ctx)             # the list clause over the heap IR: generated obligations + concrete search (self-contained)
     cases = list_cases(ctx, 500 if ctx.tier == 'quick' else 60000)
-    got = lib.run_impl_py('c06', cases)
+    got = lib.run_impl_py('c06', cases, timeout=300 if ctx.tier == 'quick' else 1800)     # (a looping defect must not hold the quick tier for half an hour)
     exp = [{'sources_ok': True, 'alias': False} for _ in cases]
     ctx.compare(cases, exp, got, THEOREM,
                 rel=lambda c, e, g: isinstance(g, dict) and g.get('sources_ok') is e['sources_ok'] and g.get('alias') is e['alias']
@@ -202,9 +199,6 @@ def run(ctx):
             ctx.stat('list_failing_query')
         if c['A']:
             ctx.nontriv(('list', c['q'], json.dumps(c['A'])))
-    # the heap obligations: a concrete failing input (above) takes precedence; otherwise name the broken obligation
-    th.join()
-    report_heap(ctx, box['heap'], found_concrete=len(ctx.violations) > nviol0)
     oc = other_cases(ctx, 60 if ctx.tier == 'quick' else 1500)
     # model side for sqlite: the statements the model sends
     sq = [c for c in oc if c['mode'] == 'sqlite']
@@ -249,6 +243,30 @@ def run(ctx):
                 '21 benign/hostile table identifiers in the table_name argument and in JOIN text; non-trivial = distinct case with a non-empty source')
 
 
+def heap_clause(ctx):
+    """translation + compilation of the generated obligations runs beside the concrete search (it only spawns processes);
+    a concrete failing input takes precedence, otherwise the broken obligation is named (no-failing-input-found)"""
+    box = {}
+
+    def bg():
+        try:
+            box['heap'] = heap_step(ctx)
+        except Exception as e:                               # noqa: BLE001
+            box['heap'] = {'ok': False, 'failed': ['heap_step'], 'detail': 'heap step raised %r' % e, 'dir': '', 'theorems': [], 'facts': None, 'stage': 'harness'}
+    th = threading.Thread(target=bg)
+    th.start()
+    nviol0 = len(ctx.violations)
+    failure = None
+    try:
+        run_heap_cases(ctx, heap_cases(ctx, 3 if ctx.tier == 'quick' else 40))
+    except lib.CheckFailure as e:
+        failure = e              # e.g. a driver that does not terminate: still report the obligations, then re-raise
+    th.join()
+    report_heap(ctx, box['heap'], found_concrete=len(ctx.violations) > nviol0)
+    if failure is not None:
+        raise failure
+
+
 def report_heap(ctx, heap, found_concrete):
     facts = heap.get('facts') or {}
     ctx.stat('heap_programs_translated', len(facts.get('programs', [])))
@@ -279,7 +297,8 @@ def replay(ctx, case):
         g = runner('c06h', [case], shards=1)[0]
         ctx.count()
         ctx.compare([case], [{'sources_ok': True, 'alias': False}], [g], HEAP_THEOREM,
-                    rel=lambda c, e, g_: isinstance(g_, dict) and g_.get('sources_ok') is True and g_.get('alias') is False,
+                    rel=lambda c, e, g_: isinstance(g_, dict) and g_.get('sources_ok') is e['sources_ok'] and g_.get('alias') is e['alias'],
+                    corrupt=lambda e: {'sources_ok': False, 'alias': False},
                     describe=lambda c, e, g_: 'rbql-%s query %r with a %s writer modified or aliased its sources -> %s' % (c.get('lang'), c['q'], c['writer'], json.dumps(g_)[:200]))
         return
     g = lib.run_impl_py('c06', [case], shards=1, extra_env={'VERIF_SCRATCH': lib.BUILD})[0]
